@@ -21,8 +21,8 @@ TRACE = "Trace_Access"
 REQUIRE_CLAUSES = ["reg_exact_runs", "reg_nonempty", "reg_sorted_separated", "acc_exact", "acc_noncanonical_dropped",
                    "acc_kept_otherwise", "acc_reports_all_accessible", "acc_extra_only_in_bridged_gap",
                    "acc_small_gaps_joined", "acc_larger_gaps_left", "acc_nonempty", "acc_sorted_separated"]
-REQUIRE_ACTIONS = ["MC_Access.Header", "MC_Access.AllN", "MC_Access.Mixed", "MC_Access.NoN", "MC_Access.EOF",
-                   "MC_Access.Call"]
+REQUIRE_ACTIONS = ["MC_Access.Header", "MC_Access.AllN", "MC_Access.Mixed", "MC_Access.NoN", "MC_Access.Blank",
+                   "MC_Access.EOF", "MC_Access.Call"]
 
 N, LOWER_N, A = 78, 110, 65
 
@@ -50,7 +50,7 @@ def fasta_text(inp):
         else:
             lines.append(s)
     text = eol.join(lines)
-    if inp.get("final_eol", True):
+    if inp.get("final_eol", True) or not lines[-1]:   # a last line that is blank exists only with its terminator
         text += eol
     return text
 
@@ -351,10 +351,13 @@ def _count_boundaries(ctx, rec):
 # ---------------------------------------------------------------------------------------- run
 def run(ctx: Ctx):
     thorough = ctx.tier == "thorough"
-    L = 7 if thorough else 6
+    L = 7 if thorough else 6          # get_regions replay scope
+    LS = 7 if thorough else 5         # scanner state machine (no replay; one TLC state per line)
+    LB = 6 if thorough else 4         # blank-line scope
+    LC = 3 if thorough else 2         # two-sequence contig scope
     ctx.rule = ("direction 1: every state of MC_Access -- all FASTA texts of <= 2 sequences, total length <= "
-                f"{L} over {{N, n, A}} at every line width 1..4 (get_regions), and all one-sequence texts over {{N, A}} x "
-                "exclude sets of <= 2 rows (one or two files) x min_gap 0..4, plus two-sequence texts x contig names x "
+                f"{L} over {{N, n, A}} at every line width 1..4 (get_regions), and all one-sequence texts of length <= 4 over {{N, A}} x "
+                "exclude sets of <= 2 rows (one or two files) x min_gap 0..3 (thorough: length <= 5, 0..4), plus two-sequence texts x contig names x "
                 "skip_noncanonical (do_access) -- written as real FASTA/BED files and replayed; direction 2: seeded random "
                 "FASTA texts (1..4 sequences incl. empty, runs 0..200 of N/n/ACGT/acgt, widths 1..80, blank lines, CRLF, "
                 "header descriptions), exclude BEDs (touching edges, nested, overlapping, unknown contigs, unsorted), "
@@ -365,9 +368,9 @@ def run(ctx: Ctx):
 
     # (1) the scanner as a state machine, one action per line kind; inductive invariant at every line
     cfg = ctx.cfg("mc-scan", invariants=["DesignOK", "ScanInv", "ScanMatchesFold"],
-                  constants=_constants(["scan"], 2, L, alpha3, [1, 2, 3, 4], [0]))
+                  constants=_constants(["scan"], 2, LS, alpha3, [1, 2, 3, 4], [0]))
     r, _ = ctx.mc("MC_Access", cfg, dump=False, timeout=3000)
-    ctx.notes["scan_machine"] = {"scope": f"<=2 sequences, total length <= {L}, {{N,n,A}}, widths 1..4", "states": r.distinct,
+    ctx.notes["scan_machine"] = {"scope": f"<=2 sequences, total length <= {LS}, {{N,n,A}}, widths 1..4", "states": r.distinct,
                                  "invariants_violated": r.violated}
 
     # (2) get_regions over the same scope, dumped and replayed
@@ -381,23 +384,21 @@ def run(ctx: Ctx):
     ctx.notes["regions_scope"] = {"tlc_states": r.distinct, "replayed": len(out)}
     recs += out
 
-    # (3) blank lines (one after each sequence): scanner machine + get_regions, modulo the known-finding trigger
-    cfg = ctx.cfg("mc-blank", invariants=["DesignOKModuloKnown", "ScanMatchesFold"],
-                  constants=_constants(["scan", "regions"], 2, L - 1, alpha3, [2], [1]))
+    # (3) blank lines (one after each sequence; the scanner skips them since the repair): scanner machine with its
+    #     invariant + get_regions replay; the unrepaired scanner differs exactly where BlankLineOutsideRun holds
+    cfg = ctx.cfg("mc-blank", invariants=["DesignOK", "ScanInv", "ScanMatchesFold", "OldScannerDiffersOnlyOnTrigger"],
+                  constants=_constants(["scan", "regions"], 2, LB, alpha3, [2], [1]))
     r, states = ctx.mc("MC_Access", cfg, timeout=3000)
-    inputs = [x for x in _inputs_from_states([s for s in states if s["op"] != "scan"])]
+    inputs = _inputs_from_states([s for s in states if s["op"] != "scan"])
     del states
     out = ctx.execute(execute, inputs)
     ctx.notes["blank_line_scope"] = {"tlc_states": r.distinct, "replayed": len(out)}
     recs += out
-    # the strict statement on a tiny blank-line scope: violated while the scanner mishandles blank lines (informational)
-    cfg = ctx.cfg("mc-blank-strict", invariants=["DesignOK"], constants=_constants(["regions"], 1, 2, [N, A], [2], [1]))
-    ctx.mc("MC_Access", cfg, dump=False, timeout=600)
 
     # (4) do_access: one sequence x exclude sets x gap sizes
-    la = 6 if thorough else 5
+    la, ga = (5, 4) if thorough else (4, 3)
     cfg = ctx.cfg("mc-access", invariants=["DesignOK", "DesignNoAssert"],
-                  constants=_constants(["access"], 1, la, [N, A], [3], [0], ex_chroms=1, max_ex=2, max_gap=4))
+                  constants=_constants(["access"], 1, la, [N, A], [3], [0], ex_chroms=1, max_ex=2, max_gap=ga))
     r, states = ctx.mc("MC_Access", cfg, timeout=3000)
     inputs = _inputs_from_states(states)
     del states
@@ -405,25 +406,24 @@ def run(ctx: Ctx):
         raise MachineryError(f"dump replay: {len(inputs)} calls parsed, TLC reports {r.distinct} states")
     out = ctx.execute(execute, inputs)
     ctx.notes["access_scope"] = {"scope": f"1 sequence of length <= {la} over {{N,A}} x <=2 exclude rows (1 or 2 files) x "
-                                          "min_gap 0..4", "tlc_states": r.distinct, "replayed": len(out)}
+                                          f"min_gap 0..{ga}", "tlc_states": r.distinct, "replayed": len(out)}
     recs += out
 
     # (5) do_access: two sequences x names (chr1, chrM, chrUn_x) x skip_noncanonical x one exclude row (also on a
-    #     contig that is not in the FASTA); (6) the same with a blank line after each sequence
-    for tag, blanks, inv in (("contigs", [0], ["DesignOK", "DesignNoAssert"]), ("contigs-blank", [1], ["DesignOKModuloKnown"])):
-        cfg = ctx.cfg("mc-" + tag, invariants=inv,
-                      constants=_constants(["access"], 2, 3, [N, A], [2], blanks, ex_chroms=3, max_ex=1, max_gap=2,
-                                           skips=[True, False]))
-        r, states = ctx.mc("MC_Access", cfg, timeout=3000)
-        inputs = _inputs_from_states(states)
-        del states
-        out = ctx.execute(execute, inputs)
-        ctx.notes[tag + "_scope"] = {"tlc_states": r.distinct, "replayed": len(out)}
-        recs += out
+    #     contig that is not in the FASTA), without and with a blank line after each sequence
+    cfg = ctx.cfg("mc-contigs", invariants=["DesignOK", "DesignNoAssert"],
+                  constants=_constants(["access"], 2, LC, [N, A], [2], [0, 1], ex_chroms=3, max_ex=1, max_gap=2,
+                                       skips=[True, False]))
+    r, states = ctx.mc("MC_Access", cfg, timeout=3000)
+    inputs = _inputs_from_states(states)
+    del states
+    out = ctx.execute(execute, inputs)
+    ctx.notes["contigs_scope"] = {"tlc_states": r.distinct, "replayed": len(out)}
+    recs += out
     ctx.exhaustive = (f"get_regions: all FASTA texts of <=2 sequences, total length <= {L}, alphabet {{N,n,A}}, every line "
-                      f"width 1..4 (+ a blank line after each sequence, length <= {L-1}, width 2); do_access: all one-sequence "
-                      f"texts of length <= {la} over {{N,A}} x exclude sets of <=2 rows x min_gap 0..4; all two-sequence texts "
-                      "of total length <= 3 x names {chr1,chrM,chrUn_x} x skip on/off x <=1 exclude row x min_gap 0..2 "
+                      f"width 1..4 (+ a blank line after each sequence, length <= {LB}, width 2); do_access: all one-sequence "
+                      f"texts of length <= {la} over {{N,A}} x exclude sets of <=2 rows x min_gap 0..{ga}; all two-sequence texts "
+                      f"of total length <= {LC} x names {{chr1,chrM,chrUn_x}} x skip on/off x <=1 exclude row x min_gap 0..2 "
                       "-- every dumped call replayed")
 
     # direction 2
@@ -438,7 +438,7 @@ def run(ctx: Ctx):
         _count_boundaries(ctx, rec)
     for rec in (recs[0], recs[len(recs) // 2], rnd[1], rnd[2], rnd[-1]):
         ctx.sample(rec)
-    ctx.validate(TRACE, recs, batch=4000 if thorough else 6000, timeout=3600)
+    ctx.validate(TRACE, recs, batch=20000, timeout=3600)
     ctx.trusted_base = ["TLC evaluation of spec/Access.tla (+ Intervals.tla, ContigNames.tla)",
                         "harness encoding: FASTA lines <-> character codes, header name = text before the first blank, "
                         "sequence index <-> contig name (c13.py)",
